@@ -44,7 +44,7 @@ DInit == /\ model = <<>> /\ built = NoStruct /\ res = <<>> /\ prog = <<>>
 DNext == /\ UNCHANGED prog
          /\ \/ \E k \in SmallKeys, v \in SmallVals : Insert(k, v)
             \/ Build
-            \/ \E k, k2 \in SmallKeys : Lookup(k, k2)
+            \/ \E k \in SmallKeys, k2 \in {0, 3, 5} : Lookup(k, k2)
 AllKeys == AllKeysOK(SmallKeys \cup {6})
 
 \* ------------------------------------------------------------------------
@@ -56,7 +56,8 @@ Lays  == {"spread", "prefix", "ends"}
 VpOrd(lay) ==
   LET base == CASE lay = "spread" -> <<"hi", "rot">> [] lay = "prefix" -> <<"lo", "asc">> [] OTHER -> <<"lo", "desc">>
       alt  == CASE lay = "spread" -> <<"lo", "desc">> [] lay = "prefix" -> <<"hi", "rot">> [] OTHER -> <<"hi", "asc">>
-  IN IF Quick THEN {base} ELSE {base, alt}
+      alt2 == CASE lay = "spread" -> <<"hi", "asc">> [] lay = "prefix" -> <<"lo", "desc">> [] OTHER -> <<"lo", "rot">>
+  IN IF Quick THEN {base} ELSE {base, alt, alt2}
 
 \* ranks (0-based positions in sorted order) next to the ends and to every page boundary
 EdgeRanks(P, n, extra) ==
@@ -117,7 +118,7 @@ NamedCounts(n) == {x \in {0, 1, 4, 5, 9, 10, n} : x <= n}
 RootProgs ==
   UNION { {[kind |-> "root", ver |-> ver, n |-> n, named |-> nm, lay |-> sh[1], blocks |-> sh[2], style |-> sh[3],
             ord |-> sh[4], probes |-> ProbeSeq(8, n, sh[1], {nm - 1, nm})] : nm \in NamedCounts(n)} :
-          ver \in 1..4, n \in RootCounts, sh \in RootShapes }
+          ver \in 1..4, n \in RootCounts \cup (IF Quick THEN {} ELSE {2, 17, 50, 98, 255, 256, 1000}), sh \in RootShapes }
 
 ChainProgs ==
   { [kind |-> "chain", ver |-> ver, n |-> n, named |-> n, lay |-> "gap", blocks |-> 1, style |-> st, ord |-> "rot",
